@@ -344,7 +344,7 @@ func DumpExecutor(e *task.Executor) string {
 		if v.Sh != nil {
 			sh = "sh:" + *v.Sh
 		}
-		fmt.Fprintf(&b, " %s=%v%s", k, v.Value, sh)
+		fmt.Fprintf(&b, " %s=%v%s@%s", k, v.Value, sh, strings.TrimPrefix(v.Dir, e.Dir))
 	}
 	b.WriteString("\nenv:")
 	for k, v := range e.Taskfile.Env.All() {
@@ -360,6 +360,19 @@ func DumpExecutor(e *task.Executor) string {
 			continue
 		}
 		fmt.Fprintf(&b, " dir=%s", strings.TrimPrefix(ct.Dir, e.Dir))
+		for _, vs := range []*ast.Vars{t.IncludeVars, t.IncludedTaskfileVars} {
+			b.WriteString(" [")
+			if vs != nil {
+				for k, v := range vs.All() {
+					sh := ""
+					if v.Sh != nil {
+						sh = "sh:" + *v.Sh
+					}
+					fmt.Fprintf(&b, "%s=%v%s@%s ", k, v.Value, sh, strings.TrimPrefix(v.Dir, e.Dir))
+				}
+			}
+			b.WriteString("]")
+		}
 		for _, d := range ct.Deps {
 			fmt.Fprintf(&b, " dep=%s", d.Task)
 		}
